@@ -38,8 +38,9 @@ pub enum WOp {
     Push(u64),
     /// Int: `n` times `push`.
     PushN { n: usize, salt: u64 },
-    /// Int: `extend` from a vector of u8 / u16 / u32 / u64 / usize (ity 0..4).
-    Extend { ity: u8, n: usize, salt: u64 },
+    /// Int: `extend` from a vector of u8 / u16 / u32 / u64 / usize (ity 0..4); `inexact`: through an
+    /// iterator adapter whose size hint has lower bound 0.
+    Extend { ity: u8, n: usize, salt: u64, #[serde(default)] inexact: bool },
     Len,
     IsOpen,
     Close,
@@ -171,7 +172,7 @@ impl Writer {
                 WKind::Int => match rng.below(10) {
                     0 | 1 | 2 => { ops.push(WOp::Push(if rng.chance(1, 4) { rng.next() } else { rng.wide() })); bits += width; },
                     3 | 4 | 5 | 6 => { let n = rng.range_usize(1, (left / width).min(if huge { 100_000 } else { 60 }).max(1)); ops.push(WOp::PushN { n, salt: rng.next() & 0xFFFF }); bits += n * width; },
-                    _ => { let n = rng.range_usize(0, (left / width).min(if huge { 100_000 } else { 60 }).max(1)); ops.push(WOp::Extend { ity: rng.below(5) as u8, n, salt: rng.next() & 0xFFFF }); bits += n * width; },
+                    _ => { let n = rng.range_usize(0, (left / width).min(if huge { 100_000 } else { 60 }).max(1)); ops.push(WOp::Extend { ity: rng.below(5) as u8, n, salt: rng.next() & 0xFFFF, inexact: rng.chance(1, 3) }); bits += n * width; },
                 },
             }
             if rng.chance(1, 12) { ops.push(if rng.bool() { WOp::Len } else { WOp::IsOpen }); }
@@ -284,14 +285,25 @@ impl Writer {
                     (WOp::Ints { n, w: width, salt }, W::Raw(x)) => { for val in rand_vals(*n, *salt) { unsafe { x.push_int(val, *width); } } },
                     (WOp::Push(val), W::Int(x)) => { x.push(*val); },
                     (WOp::PushN { n, salt }, W::Int(x)) => { for val in rand_vals(*n, *salt) { x.push(val); } },
-                    (WOp::Extend { ity, n, salt }, W::Int(x)) => {
+                    (WOp::Extend { ity, n, salt, inexact }, W::Int(x)) => {
                         let vals = rand_vals(*n, *salt);
-                        match ity {
-                            0 => x.extend(vals.iter().map(|a| *a as u8).collect::<Vec<u8>>()),
-                            1 => x.extend(vals.iter().map(|a| *a as u16).collect::<Vec<u16>>()),
-                            2 => x.extend(vals.iter().map(|a| *a as u32).collect::<Vec<u32>>()),
-                            3 => x.extend(vals),
-                            _ => x.extend(vals.iter().map(|a| *a as usize).collect::<Vec<usize>>()),
+                        if *inexact {
+                            // filter() reports a size hint of (0, Some(n)): nothing may rely on the hint.
+                            match ity {
+                                0 => x.extend(vals.iter().map(|a| *a as u8).filter(|_| true)),
+                                1 => x.extend(vals.iter().map(|a| *a as u16).filter(|_| true)),
+                                2 => x.extend(vals.iter().map(|a| *a as u32).filter(|_| true)),
+                                3 => x.extend(vals.into_iter().filter(|_| true)),
+                                _ => x.extend(vals.iter().map(|a| *a as usize).filter(|_| true)),
+                            }
+                        } else {
+                            match ity {
+                                0 => x.extend(vals.iter().map(|a| *a as u8).collect::<Vec<u8>>()),
+                                1 => x.extend(vals.iter().map(|a| *a as u16).collect::<Vec<u16>>()),
+                                2 => x.extend(vals.iter().map(|a| *a as u32).collect::<Vec<u32>>()),
+                                3 => x.extend(vals),
+                                _ => x.extend(vals.iter().map(|a| *a as usize).collect::<Vec<usize>>()),
+                            }
                         }
                     },
                     (WOp::Len, _) if tr.push_panicked => {},
@@ -485,7 +497,7 @@ impl Writer {
                 WOp::Bits { n, salt } if *n > 1 => vec![WOp::Bits { n: n / 2, salt: *salt }, WOp::Bits { n: n - 1, salt: *salt }],
                 WOp::Ints { n, w, salt } if *n > 1 => vec![WOp::Ints { n: n / 2, w: *w, salt: *salt }, WOp::Ints { n: n - 1, w: *w, salt: *salt }],
                 WOp::PushN { n, salt } if *n > 1 => vec![WOp::PushN { n: n / 2, salt: *salt }, WOp::PushN { n: n - 1, salt: *salt }],
-                WOp::Extend { ity, n, salt } if *n > 0 => vec![WOp::Extend { ity: *ity, n: n / 2, salt: *salt }, WOp::PushN { n: *n, salt: *salt }],
+                WOp::Extend { ity, n, salt, inexact } if *n > 0 => vec![WOp::Extend { ity: *ity, n: n / 2, salt: *salt, inexact: *inexact }, WOp::PushN { n: *n, salt: *salt }],
                 WOp::Int { v, w } if *v != 0 => vec![WOp::Int { v: 0, w: *w }],
                 WOp::Push(v) if *v != 0 => vec![WOp::Push(0)],
                 _ => vec![],
@@ -565,7 +577,7 @@ fn apply_model(m: &mut M, op: &WOp, pushes: &mut u64) {
         (WOp::Ints { n, w, salt }, M::Raw(x)) => { for val in rand_vals(*n, *salt) { unsafe { x.push_int(val, *w); } } *pushes += *n as u64; },
         (WOp::Push(v), M::Int(x)) => { x.push(*v); *pushes += 1; },
         (WOp::PushN { n, salt }, M::Int(x)) => { for val in rand_vals(*n, *salt) { x.push(val); } *pushes += *n as u64; },
-        (WOp::Extend { ity, n, salt }, M::Int(x)) => {
+        (WOp::Extend { ity, n, salt, .. }, M::Int(x)) => {
             for val in rand_vals(*n, *salt) {
                 let t = match ity { 0 => val as u8 as u64, 1 => val as u16 as u64, 2 => val as u32 as u64, _ => val };
                 x.push(t);
